@@ -16,15 +16,52 @@ enum { E_NAIVE, E_GAUSS, E_M4RI, E__M4RI, E_HYBRID, E_PLUQ, E_TOP };
 static const double THRESH[] = {0.0, 0.05, 0.15, 0.5, 1.0, 2.0};
 
 /* shared input generator for elimination-like ops: returns matrix, fills description */
+static int PREFER_BLOCK; /* set by aim_recursive_shape: the next input should favour block rank profiles */
+/* shapes that straddle the base-case / block-recursion boundary of PLE (width*nrows around the PLE cutoff, ncols > 64) */
+static int aim_recursive_shape(rng_t *r, int md, int *pm, int *pn) {
+  long cut = GC.ple_cutoff;
+  int n = rng_chance(r, 1, 2) && md > 270 ? rng_int(r, 260, md) : 65 + rng_int(r, 0, md > 66 ? md - 66 : 0);
+  long w = (n + 63) / 64;
+  int m = (int)(cut / w) + rng_int(r, -2, 40);
+  if (m < 1) m = 1;
+  if (m > 8 * md) return 0;
+  *pm = m;
+  *pn = n;
+  PREFER_BLOCK = 1;
+  return 1;
+}
 static rm_t *gen_elim_input(rng_t *r, int m, int n, char *desc, size_t cap, int *rank_out, int *kind_out) {
   int c = rng_int(r, 0, 99);
+  if (PREFER_BLOCK && n >= 200 && m >= 8 && rng_chance(r, 1, 2)) c = 65;
+  PREFER_BLOCK = 0;
   rm_t *A;
   int rk = -1, kind = -1;
   if (c < 62) {
     int sparse = rng_chance(r, 1, 3);
     A = gen_rankprof(r, m, n, -1, sparse, NULL, &rk, &kind);
     snprintf(desc, cap, "rankprof=%s%s r=%d", rp_name(kind), sparse ? ":sparse" : "", rk);
-  } else if (c < 72 && n > 330) {
+  } else if (c < 70 && n >= 200 && m >= 8) {
+    /* block profile aimed at the block-recursive algorithms: the left column half (split at a word boundary) has a rank that is
+       a multiple of 64 (incl. 0) or arbitrary but deficient, the right half contributes many pivots */
+    int n1 = ((((n - 1) / 64) + 1) >> 1) * 64;
+    static const int R1[] = {0, 0, 64, 64, 128, 192, -1, -1};
+    int r1 = R1[rng_int(r, 0, 7)];
+    int lim = n1 < m ? n1 : m;
+    if (r1 < 0 || r1 >= lim) r1 = rng_int(r, 0, lim - 1);
+    int r2max = (n - n1) < (m - r1) ? (n - n1) : (m - r1);
+    int r2 = rng_chance(r, 1, 2) ? r2max : rng_int(r, 0, r2max);
+    rm_t *Lf = gen_mat(r, m, r1, PAT_DENSE), *Ef = gen_mat(r, r1, n1, PAT_DENSE), *Lr = gen_mat(r, m, r2, PAT_DENSE), *Er = gen_mat(r, r2, n - n1, PAT_DENSE);
+    rm_t *Al = rm_mul(Lf, Ef), *Ar = rm_mul(Lr, Er);
+    A = rm_concat(Al, Ar);
+    rm_free(Lf);
+    rm_free(Ef);
+    rm_free(Lr);
+    rm_free(Er);
+    rm_free(Al);
+    rm_free(Ar);
+    snprintf(desc, cap, "blockprofile n1=%d r1<=%d r2<=%d", n1, r1, r2);
+    kind = 300 + (r1 % 64 == 0) * 10 + (r2 >= 128);
+  } else if (c < 76 && n > 330) {
     /* low density head (> 256 columns) followed by a dense tail: density switch happens mid-way */
     int c1 = rng_int(r, 270, n - 20);
     A = rm_new(m, n);
@@ -46,6 +83,7 @@ static rm_t *gen_elim_input(rng_t *r, int m, int n, char *desc, size_t cap, int 
 static void gen_ech(opcase_t *c, rng_t *r, int maxdim) {
   int v = c->op->variant;
   int m = gen_dim(r, maxdim), n = gen_dim(r, maxdim + maxdim / 2);
+  if ((v == E_PLUQ || v == E_HYBRID || v == E__M4RI) && rng_chance(r, 1, 6)) aim_recursive_shape(r, maxdim, &m, &n);
   int full = rng_int(r, 0, 1), k = rng_int(r, 0, 10), heur = 0;
   double thr = 1.0;
   char d[96];
@@ -138,14 +176,7 @@ static void gen_ple(opcase_t *c, rng_t *r, int maxdim) {
   int md = maxdim;
   if (v == P_PLE_NAIVE || v == P_PLUQ_NAIVE) md = maxdim < 300 ? maxdim : 300;
   /* shapes straddling the base-case / recursion boundary of this build */
-  if ((v == P_PLE || v == P_PLUQ || v == P__PLE || v == P__PLUQ) && rng_chance(r, 1, 3)) {
-    long cut = GC.ple_cutoff;
-    n = 65 + rng_int(r, 0, md > 66 ? md - 66 : 0);
-    long w = (n + 63) / 64;
-    long mb = cut / w;
-    m = (int)mb + rng_int(r, -2, 40);
-    if (m < 1) m = 1;
-    if (m > 8 * md) m = gen_dim(r, md);
+  if ((v == P_PLE || v == P_PLUQ || v == P__PLE || v == P__PLUQ) && rng_chance(r, 1, 3) && aim_recursive_shape(r, md, &m, &n)) {
   } else {
     m = gen_dim(r, md);
     n = gen_dim(r, md);
@@ -383,7 +414,7 @@ static void gen_inv(opcase_t *c, rng_t *r, int maxdim) {
   if (v == I_NAIVE) c->in[2] = rm_identity(n);
   if (rng_chance(r, 1, 2)) c->in[0] = gen_mat(r, n, n, PAT_DENSE);
   c->overwr[0] = 1;
-  c->ip[0] = rng_int(r, 0, 10);
+  c->ip[0] = rng_int(r, 0, 16); /* every table parameter up to the documented maximum __M4RI_MAXKAY */
   snprintf(c->pcls, sizeof c->pcls, "-");
   snprintf(c->desc, sizeof c->desc, "n=%d k=%ld dst=%s", n, c->ip[0], c->in[0] ? "given" : "NULL");
   hx_cls("%s:k%ld:%c%c:%s", c->op->name, v == I_M4RI ? c->ip[0] : 0, dimcls(n), modcls(n), c->in[0] ? "C" : "N");
@@ -447,6 +478,7 @@ static void gen_solve(opcase_t *c, rng_t *r, int maxdim) {
   int t = rng_int(r, 0, 5);
   if (t == 0) n = m;
   if (t == 1 && m > 1) n = m + rng_int(r, 1, 3); /* m < n with few padding rows */
+  if (rng_chance(r, 1, 8)) aim_recursive_shape(r, maxdim, &m, &n);
   int w = rng_chance(r, 1, 2) ? rng_int(r, 1, 200) : gen_dim(r, maxdim);
   char d[96];
   int kind;
@@ -540,6 +572,7 @@ static uint64_t canon_solve(opcase_t *c) { return 1000 + (uint64_t)(c->iret[0] +
 /* ------------------------------------------------------------------ kernel (C07) */
 static void gen_kernel(opcase_t *c, rng_t *r, int maxdim) {
   int m = gen_dim(r, maxdim), n = gen_dim(r, maxdim);
+  if (rng_chance(r, 1, 5)) aim_recursive_shape(r, maxdim, &m, &n); /* the kernel is read off a PLUQ factorisation */
   char d[96];
   int kind;
   c->in[0] = gen_elim_input(r, m, n, d, sizeof d, NULL, &kind);
